@@ -34,11 +34,27 @@ def stub_broadcast(ctx, g, rec):
     return RaggedArray, old
 
 
+def stub_broadcast_generic(ctx, g, rec, kind):
+    from npstructures import RaggedArray
+
+    def broadcast_stub(self_, values, dtype=None):
+        c = cur()
+        rec["values"] = values
+        flat = SymArr.symbolic("bcast", g.S(g.n), kind, np.int64, assume_len=False)
+        vsnap = values.snapshot()
+        c.assume_forall("broadcast", lambda r, cc: z3.Implies(z3.And(0 <= r, r < g.n, 0 <= cc, cc < g.L(r)),
+                                                             flat.fn(g.S(r) + cc) == vsnap(r, 0)), arity=2)
+        return RaggedArray(flat, self_._shape)
+    old = RaggedArray.__dict__["_broadcast_rows"]
+    RaggedArray._broadcast_rows = broadcast_stub
+    return RaggedArray, old
+
+
 @register
 class Cumsum(Family):
     name = "RaggedArray.cumsum"
     qualname = "npstructures.raggedarray:RaggedArray.cumsum"
-    serves = ["C07"]
+    serves = ["C07", "C19"]
     assumed = ["numpy.cumsum = prefix sums", "numpy.insert(a, 0, 0)", "callee contract RaggedArray._broadcast_rows (bounded stand-in)",
                "integer data do not overflow (mathematical integers)"]
 
@@ -123,17 +139,19 @@ class RowAccumulate(Family):
     result = cm + offsets[row]   i.e.  cell'(r,c) = PS_D(S(r)+c+1) - PS_D(S(r))  again"""
     name = "RaggedArray._row_accumulate"
     qualname = "npstructures.raggedarray:RaggedArray._row_accumulate"
-    serves = ["C07"]
+    serves = ["C07", "C19"]
     assumed = ["ufunc.accumulate(add) = prefix sums", "numpy.append(a, 0)", "callee contract RaggedArray._broadcast_rows (bounded stand-in)",
                "integer data do not overflow (mathematical integers)"]
 
     def kinds(self):
-        return ["add"]
+        return ["add", "subtract", "bitwise_xor"]
 
     def extra_functions(self):
         return ["util.unsafe_extend_right", "RaggedArray.__array_ufunc__", "RaggedArray._accumulate"]
 
     def run(self, ctx, kind):
+        if kind != "add":
+            return self.run_recurrence(ctx, kind)
         g = sym_ragged(ctx, kind="int")
         ctx.ghost["g"] = g
         ra = g.ra
@@ -153,6 +171,33 @@ class RowAccumulate(Family):
         ctx.add_index(c, p, p + 1, r + 1, g.S(r), g.S(r) + 1)
         ctx.prove("post.same row lengths", out._shape.lengths.get(r) == g.L(r))
         ctx.prove("post.cell'(r,c) == PS_D(S(r)+c+1) - PS_D(S(r))", out.ravel().get(p) == psd(p + 1) - psd(g.S(r)))
+        ctx.prove("post.input not modified", z3.BoolVal(g.D.buf.writes == 0))
+
+    def run_recurrence(self, ctx, kind):
+        """subtract / xor: stated as numpy's own row recurrence: result(r,0) = cell(r,0), result(r,c+1) = result(r,c) (op) cell(r,c+1)"""
+        from ..sym.arr import apply_binary
+        g = sym_ragged(ctx, kind="int" if kind == "subtract" else "bv")
+        ctx.ghost["g"] = g
+        ra = g.ra
+        if kind != "subtract":
+            ctx.ghost["unsigned_as_bv"] = True
+        telescoping(ctx, g, ra._shape.lengths)
+        rec = {}
+        cls, old = stub_broadcast_generic(ctx, g, rec, "int" if kind == "subtract" else "bv")
+        ctx.add_index(g.n, g.n - 1)
+        try:
+            out = ra._accumulate(getattr(np, kind), ra, axis=-1)
+        finally:
+            cls._broadcast_rows = old
+        r = g.row()
+        c = z3.Int("c")
+        ctx.skolem(z3.And(0 <= c, c + 1 < g.L(r)))
+        p = g.S(r) + c
+        ctx.add_index(c, c + 1, p, p + 1, r + 1, g.S(r), g.S(r) + 1, z3.IntVal(0))
+        res = out.ravel()
+        ctx.prove("post.same row lengths", out._shape.lengths.get(r) == g.L(r))
+        ctx.prove("post.first cell of a non-empty row is the row's first element", z3.Implies(g.L(r) > 0, res.get(g.S(r)) == g.D.fn(g.S(r))))
+        ctx.prove("post.row recurrence: result(r,c+1) == result(r,c) (op) cell(r,c+1)", res.get(p + 1) == apply_binary(kind, res.get(p), g.D.fn(p + 1)))
         ctx.prove("post.input not modified", z3.BoolVal(g.D.buf.writes == 0))
 
     def concretise(self, kind, model, ghost):
@@ -187,7 +232,7 @@ class Diff(Family):
     row r keeps exactly the differences whose n+1 operands all lie in row r"""
     name = "arrayfunctions.diff"
     qualname = "npstructures.arrayfunctions:diff"
-    serves = ["C07"]
+    serves = ["C07", "C19"]
     assumed = ["numpy.diff(n) of the flat data (bounded stand-in for the values)", "callee contract RaggedView.get_flat_indices (vf.proofs.derived / indices)"]
 
     def kinds(self):
